@@ -382,6 +382,39 @@ class G:
                     pos += sz
                     self.features.add("pk:physconst")
                     continue
+            # DTC parameter + ENV-DATA-DESC parameter
+            if top and not must_static and r in (88, 89, 90, 91) and self.opts.get("envdata", True):
+                ddop, dval, dsz = self.dtc_dop()
+                dname = self.nid("p")
+                dp = {"pk": "value", "name": dname, "pos": None, "bit": 0, "dop": ddop, "default": None}
+                if not dynamic:
+                    dp["pos"] = pos
+                    dp["_end"] = pos + dsz
+                    static_layout.append(dp)
+                    pos += dsz
+                else:
+                    dyn_params.append(dp)
+                values[dname] = dval
+                code = dval if isinstance(dval, int) else [c for n_, c in ddop["dtcs"] if n_ == dval][0]
+                envs, evals = [], {}
+                if self.chance(60):
+                    eps, ev, _ = self.params(0, True, False, max_slots=2)
+                    envs.append({"id": self.nid("env"), "name": self.nid("envall"), "all": True, "dtcs": [], "params": eps})
+                    evals.update(ev)
+                codes = [c for _, c in ddop["dtcs"]]
+                for c in codes[:3]:
+                    if self.chance(70):
+                        eps, ev, _ = self.params(0, True, False, max_slots=2)
+                        envs.append({"id": self.nid("env"), "name": self.nid("envdtc"), "all": False, "dtcs": [c], "params": eps})
+                        if c == code:
+                            evals.update(ev)
+                edop = {"k": "envdesc", "id": self.nid("edd"), "param": dname, "envs": envs}
+                ename = self.nid("p")
+                dynamic = True
+                dyn_params.append({"pk": "value", "name": ename, "pos": None, "bit": 0, "dop": edop, "default": None})
+                values[ename] = evals
+                self.features.add("envdata")
+                continue
             # TABLE-KEY + TABLE-STRUCT pair
             if not must_static and r >= 92 and self.opts.get("tables", True):
                 tk, ts, tval, kval = self.table_group(slot_tail)
